@@ -440,7 +440,12 @@ func (c *CCtx) sel(x CVal, name string) CVal {
 			cur = pt.Elem()
 		}
 		st := cur.Underlying().(*types.Struct)
-		term = fmt.Sprintf("(%s %s)", c.e.sorts.Sel(c.e.sorts.SortOf(cur), st, fi), term)
+		srt := c.e.sorts.SortOf(cur)
+		if args, ok := ctorArgs(term, "mk_"+srt); ok && len(args) == st.NumFields() {
+			term = args[fi] // selector applied to a constructor term
+		} else {
+			term = fmt.Sprintf("(%s %s)", c.e.sorts.Sel(srt, st, fi), term)
+		}
 		cur = st.Field(fi).Type()
 	}
 	return c.val(term, fv.Type())
@@ -449,7 +454,13 @@ func (c *CCtx) sel(x CVal, name string) CVal {
 func (c *CCtx) index(x, i CVal) CVal {
 	if strings.HasPrefix(x.Sort, "(View ") {
 		el := strings.TrimSuffix(strings.TrimPrefix(x.Sort, "(View "), ")")
-		return CVal{T: fmt.Sprintf("(select (varr %s) (+ (voff %s) %s))", x.T, x.T, i.T), Sort: el}
+		t := fmt.Sprintf("(select (varr %s) (+ (voff %s) %s))", x.T, x.T, i.T)
+		if x.GoT != nil { // a view made from a Go slice keeps its element type
+			if sl, ok := x.GoT.Underlying().(*types.Slice); ok {
+				return c.val(t, sl.Elem())
+			}
+		}
+		return CVal{T: t, Sort: el}
 	}
 	if x.GoT == nil {
 		return CVal{T: fmt.Sprintf("(select %s %s)", x.T, i.T), Sort: "?"} // SMT array from a model field or spec function
@@ -517,7 +528,7 @@ func (c *CCtx) call(n Call) CVal {
 			bindFail("seq of non-slice")
 		}
 		es := c.e.sorts.SortOf(sl.Elem())
-		return CVal{T: fmt.Sprintf("((as mkview (View %s)) (select %s (base %s)) (off %s) (len %s))", es, c.heap(c.e.sorts.HeapSlice(es)), a.T, a.T, a.T), Sort: "(View " + es + ")"}
+		return CVal{T: fmt.Sprintf("((as mkview (View %s)) (select %s (base %s)) (off %s) (len %s))", es, c.heap(c.e.sorts.HeapSlice(es)), a.T, a.T, a.T), Sort: "(View " + es + ")", GoT: a.GoT}
 	case "bytes", "oidv":
 		a := arg(0)
 		fn := map[string]string{"bytes": "bytesv", "oidv": "oidv"}[n.Fun]
@@ -618,6 +629,8 @@ func (c *CCtx) call(n Call) CVal {
 		return CVal{T: fmt.Sprintf("(select (select %s %s) %s)", c.heap(hd), m.T, arg(1).T), Sort: "Bool"}
 	case "b8": // b8(5): a byte literal
 		return toBV(arg(0))
+	case "asbyte": // asbyte(t): the term (e.g. a spec function application) is a byte
+		return CVal{T: arg(0).T, Sort: "(_ BitVec 8)"}
 	case "oid": // oid("2.5.4.6"): a literal OBJECT IDENTIFIER value
 		lit, ok := n.Args[0].(StrLit)
 		if !ok {
@@ -635,6 +648,28 @@ func (c *CCtx) call(n Call) CVal {
 			bindFail("unboxed: dynamic type of %s is not statically %s", a.T, n.Args[1].(StrLit).V)
 		}
 		return c.val(bi.Term, bi.Typ)
+	case "bound": // bound(NAME): the ghost result / variable NAME exists on this path (decided statically)
+		id, ok := n.Args[0].(Ident)
+		if !ok {
+			bindFail("bound() takes a name")
+		}
+		_, has := c.vars[id.Name]
+		return CVal{T: fmt.Sprint(has), Sort: "Bool"}
+	case "isclosure": // isclosure(f, "pkg.Outer$1"): f is the closure of that function literal created on this path
+		a := arg(0)
+		ci, ok := c.st.closures[a.T]
+		if !ok {
+			return CVal{T: "false", Sort: "Bool"}
+		}
+		return CVal{T: fmt.Sprint(ci.Fn.String() == c.calleeKey(n.Args[1].(StrLit).V)), Sort: "Bool"}
+	case "captured": // captured(f, k): the k-th captured variable (a pointer to its cell) of a closure created on this path
+		a := arg(0)
+		ci, ok := c.st.closures[a.T]
+		k, _ := strconv.Atoi(n.Args[1].(IntLit).V)
+		if !ok || k >= len(ci.Bindings) {
+			bindFail("captured: %s is not a closure created on this path", a.T)
+		}
+		return c.val(ci.Bindings[k], ci.Types[k])
 	case "unbox": // unbox(v): the concrete value inside an interface whose dynamic type is statically known (whatever it is)
 		a := arg(0)
 		bi, ok := c.st.boxed[a.T]
@@ -643,6 +678,9 @@ func (c *CCtx) call(n Call) CVal {
 		}
 		return c.val(bi.Term, bi.Typ)
 	case "typeis":
+		if arg(0).T == "nilAny" {
+			return CVal{T: "false", Sort: "Bool"}
+		}
 		if bi, ok := c.st.boxed[arg(0).T]; ok { // decided statically
 			return CVal{T: fmt.Sprint(bi.Typ.String() == expandType(n.Args[1].(StrLit).V)), Sort: "Bool"}
 		}
